@@ -191,6 +191,46 @@ func runC12(c *Ctx) {
 	c.floor("C12.1", "VarPool methods returning a name", len(methods), 3)
 	c.check(len(usedField) == 1, "C12.2", "VarPool:one-used-set", L.pos(vp.Pos()), "all allocating methods consult and update one and the same used-set field", fmt.Sprintf("%v", sortedKeys(usedField)))
 
+	// the used-set only grows: nothing in the generator forgets a name (no delete / clear / replacement of the map, and no
+	// entry is set back to zero) once the pool exists
+	for f := range usedField {
+		nShrink := 0
+		for _, fn := range pkgFuncs(L, genPkg) {
+			for _, b := range fn.Blocks {
+				for _, in := range b.Instrs {
+					switch x := in.(type) {
+					case *ssa.Store:
+						if fa, ok := x.Addr.(*ssa.FieldAddr); ok && fieldKey(fa) == f {
+							// only the constructor installs the map
+							isCtor := false
+							if al, ok := fa.X.(*ssa.Alloc); ok && al.Parent() == fn {
+								isCtor = true // &VarPool{vars: m} in the constructor
+							}
+							if !isCtor {
+								nShrink++
+								c.fail("C12.2", fnName(fn)+":used-set-replaced", L.pos(x.Pos()), "the used-set map is replaced after the pool was created: names handed out or reserved before are forgotten")
+							}
+						}
+					case ssa.CallInstruction:
+						bi, ok := x.Common().Value.(*ssa.Builtin)
+						if !ok || (bi.Name() != "clear" && bi.Name() != "delete") || len(x.Common().Args) == 0 {
+							continue
+						}
+						if ld, ok := x.Common().Args[0].(*ssa.UnOp); ok {
+							if fa, ok := ld.X.(*ssa.FieldAddr); ok && fieldKey(fa) == f {
+								nShrink++
+								c.fail("C12.2", fnName(fn)+":used-set-shrinks", L.pos(x.Pos()), "the used-set is emptied or an entry is removed ("+bi.Name()+"): reserved words, package-level names and names already handed out can be allocated again")
+							}
+						}
+					}
+				}
+			}
+		}
+		if nShrink == 0 {
+			c.ok("C12.2", "the used-set "+f+" is never replaced, cleared or deleted from outside its constructor", "scan of every store/clear/delete in "+genPkg)
+		}
+	}
+
 	// ---- C12.3 reserved lists
 	lists := map[string][]string{}
 	for _, f := range p.Syntax {
@@ -396,6 +436,16 @@ func c12Registration(c *Ctx, allocating map[*ssa.Function]bool) {
 		hdr := outermostLoopHeader(call.Block())
 		c.check(hdr != nil && hdr.Dominates(find.Block()), "C12.5", "ParseFile:register-"+k+"-loop-always-runs", L.pos(call.Pos()),
 			"the walk that registers "+k+" names lies on every path to the declaration search", fmt.Sprintf("loop header block %v dominates block %d", hdrIndex(hdr), find.Block().Index))
+	}
+	// reservation priority: every package-level declaration (of every file) is reserved before the first name is handed out
+	// for keeps (import names): no path leads from the import-name allocation back to a declaration reservation
+	if imp := got["import"]; imp != nil {
+		for _, k := range []string{"func", "value", "type"} {
+			if d := got[k]; d != nil {
+				c.check(!reachableAfter(imp.chain[0], d.chain[0]), "C12.5", "ParseFile:register-"+k+"-before-import-names", L.pos(d.chain[0].Pos()),
+					"all package-level "+k+" names of all files are reserved before any import name is allocated (a later file's declaration must win over an earlier file's import alias)", "CFG: the import-name allocation cannot reach the "+k+" reservation")
+			}
+		}
 	}
 	// range operand of the walks is the package's full syntax
 	// processFile: ParseFile before CreateInjector/Generate with one shared pool
